@@ -21,6 +21,14 @@ def run(tier, seed):
     _, r2 = run_hex(rep, "A/C: H4xSL batch<=2 commit + failing commit writes", universe="H4", values=("S", "L"), prune=False, props=P,
                     batch_len=2, exits=("commit", "abort", "wfail"), direct=False)
     _, r3 = run_hex(rep, "A: H7xSL direct", universe="H7", values=("S", "L"), prune=False, props=P)
+    from ..alphabet import Labels
+    lab = Labels(seed)
+    k = lab.keys("H3S")
+    L = lab.value("L")
+    long_batches = [[("set", k[0], L), ("set", k[1], L), ("set", k[2], L), ("set", k[3], L), ("del", k[0]), ("del", k[1])],
+                    [("set", k[0], L), ("set", k[1], L), ("set", k[2], L), ("del", k[2])]]
+    run_hex(rep, "A: H3Sx{L} direct + two long batches (a leaf referenced three times loses two references inside one batch)", universe="H3S",
+            values=("L",), prune=False, props=P, extra_batches=long_batches, exits=("commit", "abort"))
     faults = sum(r.stats.get("ev:opwf", 0) + r.stats.get("ev:batch:wfail", 0) for r in (r1, r2, r3))
     # B
     depth = 3
